@@ -363,6 +363,7 @@ func runC07(r *Run) {
 	rangeLemmas(r, rcConfig{capPlain, false, ""}, []rangeItem{{name: "rangeGL[layered]", bound: P, gadget: "RangeCheck", compl: "direct", body: func(chip *gl.Chip, x gl.Variable) { chip.RangeCheck(x) }}})
 	clearHooks()
 	sharedOperandCases(r)
+	constantOperandCases(r)
 	r.Bounds["operands"] = "all canonical operand values (symbolic, < p); Reduce input any value in [0, r) for soundness and < 2^144*p for acceptance"
 	r.Bounds["RANGE_CHECK_NB_BITS"] = gl.RANGE_CHECK_NB_BITS
 	r.Assumptions = append(r.Assumptions,
@@ -415,6 +416,61 @@ func sharedOperandCases(r *Run) {
 	r.Discharge()
 }
 
+// constantOperandCases: the arithmetic wrappers with compile-time constants as operands (gnark's builders
+// report constants through Compiler().ConstantValue, the symbolic API does the same; the test engine does
+// not - so a disagreement is replayed on a circuit compiled with the real R1CS builder).
+func constantOperandCases(r *Run) {
+	pm := new(big.Int).Set(P)
+	edge := []uint64{0, 1, 1<<32 - 1, 1 << 32, 1 << 63, pm.Uint64() - 1<<32, pm.Uint64() - 1}
+	k := func(v uint64) gl.Variable { return gl.NewVariable(v) }
+	type op struct {
+		name string
+		f    func(c *gl.Chip, a, b gl.Variable) gl.Variable
+		g    func(B *ref.B, a, b *ref.N) *ref.N
+	}
+	ops := []op{
+		{"Add", func(c *gl.Chip, a, b gl.Variable) gl.Variable { return c.Add(a, b) }, func(B *ref.B, a, b *ref.N) *ref.N { return B.Add(a, b) }},
+		{"Sub", func(c *gl.Chip, a, b gl.Variable) gl.Variable { return c.Sub(a, b) }, func(B *ref.B, a, b *ref.N) *ref.N { return B.Sub(a, b) }},
+		{"Mul", func(c *gl.Chip, a, b gl.Variable) gl.Variable { return c.Mul(a, b) }, func(B *ref.B, a, b *ref.N) *ref.N { return B.Mul(a, b) }},
+		{"MulAdd(.,.,p-1)", func(c *gl.Chip, a, b gl.Variable) gl.Variable { return c.MulAdd(a, b, gl.NewVariable(pm.Uint64()-1)) }, func(B *ref.B, a, b *ref.N) *ref.N { return B.Add(B.Mul(a, b), B.ConstU(pm.Uint64()-1)) }},
+	}
+	for _, o := range ops {
+		o := o
+		for _, mixed := range []bool{false, true} {
+			mixed := mixed
+			var cs fieldCase
+			name := o.name + "[both operands compile-time constants]"
+			bound := "operands from {0, 1, 2^32-1, 2^32, 2^63, p-2^32, p-1}, all 49 pairs"
+			if mixed {
+				name = o.name + "[second operand a compile-time constant]"
+				bound = "first operand symbolic, second from {0, 1, 2^32-1, 2^32, 2^63, p-2^32, p-1}"
+			}
+			cs = fieldCase{name: name, bound: bound, build: func(fc *fctx) ([]frontend.Variable, []*ref.N) {
+				var outs []frontend.Variable
+				var refs []*ref.N
+				if mixed {
+					x, rx := fc.glIn("x")
+					for _, b := range edge {
+						outs = append(outs, o.f(fc.chip, x, k(b)).Limb)
+						refs = append(refs, o.g(fc.rb, rx, fc.rb.ConstU(b)))
+					}
+					return outs, refs
+				}
+				for _, a := range edge {
+					for _, b := range edge {
+						outs = append(outs, o.f(fc.chip, k(a), k(b)).Limb)
+						refs = append(refs, o.g(fc.rb, fc.rb.ConstU(a), fc.rb.ConstU(b)))
+					}
+				}
+				return outs, refs
+			}}
+			cs.acceptReplay = func() string { return sharedOperandReplay(cs, r) }
+			runFieldCase(r, "constant-operands", cs, nil)
+		}
+		r.Discharge()
+	}
+}
+
 // sharedOperandReplay: random canonical inputs, the reference's results as expected outputs, on the
 // real R1CS builder.
 func sharedOperandReplay(c fieldCase, r *Run) string {
@@ -443,7 +499,11 @@ func sharedOperandReplay(c fieldCase, r *Run) string {
 		}
 		ref.ClearConcreteHashes()
 		if ok, msg := runCaseOnR1CS(c, names, env, want); !ok {
-			return "the circuit compiled with gnark's R1CS builder rejects the true results of " + c.name + " (" + msg + "): an operand handed to api.MulAcc is extended in place and read again afterwards"
+			why := "an operand handed to api.MulAcc is extended in place and read again afterwards"
+			if !c.alias {
+				why = "on a compiling builder (constants are visible to the code there) the result is not the reference's"
+			}
+			return "the circuit compiled with gnark's R1CS builder rejects the true results of " + c.name + " (" + msg + "): " + why
 		}
 	}
 	return ""
